@@ -234,7 +234,7 @@ func (tree *Tree[T]) Remove(pattern string, methods ...string) {
 	child.buildMethods()
 
 	for child.size() == 0 && len(child.children) == 0 {
-		child.parent.children = removeNodes(child.parent.children, child.segment.Value)
+		child.parent.children = removeNode(child.parent.children, child)
 		child.parent.buildIndexes()
 		child = child.parent
 	}
